@@ -83,3 +83,14 @@ package s2
 //@ func (r Rect) CapBound() Cap
 //@   ensures [wide-gives-pole-cap] !r.IsEmpty() && !(math.Remainder(r.Lng.Hi-r.Lng.Lo, 2*math.Pi) >= 0) ==> vcSame(result.center.X, float64(0)) && vcSame(result.center.Y, float64(0))
 //@   ensures [empty] r.IsEmpty() ==> result.IsEmpty()
+
+// The lat-lng bound of a cap: latitudes are clamped to the poles, and a bound that reaches a pole spans all longitudes
+// (the cap then contains points of every longitude next to that pole). Exact IEEE comparisons; the trigonometric
+// values (cap angle, latitude and longitude of the centre, the tangent-meridian formula) are uninterpreted, so that
+// the latitude range and the longitudes of a cap away from the poles contain the cap's points is NOT decided here.
+//@ func (c Cap) RectBound() Rect
+//@   fp
+//@   remopaque
+//@   ensures [empty] c.IsEmpty() ==> result.IsEmpty()
+//@   ensures [latitude-clamped] !c.IsEmpty() ==> !(result.Lat.Hi > math.Pi/2) && !(result.Lat.Lo < -math.Pi/2)
+//@   ensures [pole-means-all-longitudes] !c.IsEmpty() && (result.Lat.Hi >= math.Pi/2 || result.Lat.Lo <= -math.Pi/2) ==> result.Lng.IsFull()
